@@ -168,6 +168,32 @@ class BaseInstance:
                 eng.finish_path(st, 'panic')
                 return 'end'
             return R(o[2][0])
+        if re.match(r'^(std|core)::mem::replace::<.*>$', c):
+            old = eng.read(st, args[0])
+            eng.write(st, args[0], args[1])
+            return R(old)
+        if re.match(r'^(std|core)::mem::swap::<.*>$', c):
+            a = eng.read(st, args[0]); b = eng.read(st, args[1])
+            eng.write(st, args[0], b)
+            eng.write(st, args[1], a)
+            return R(UNIT)
+        if re.match(r'^(std|core)::mem::take::<.*>$', c):
+            raise Unsupported('mem::take (needs the Default of the value type)')
+        m = re.match(r'^<(u8|u16|u32|u64|usize) as Ord>::(max|min)$', c)
+        if m and c != '<usize as Ord>::max':
+            a, b = args
+            ge = z3.UGE(a, b)
+            return R(ite(ge, a, b) if m.group(2) == 'max' else ite(ge, b, a))
+        if re.match(r'^core::num::<impl (u8|u16|u32|u64|usize)>::(saturating_sub|wrapping_sub|wrapping_add|saturating_add)$', c):
+            a, b = args
+            op = c.rsplit('::', 1)[1]
+            if op == 'wrapping_sub':
+                return R(a - b)
+            if op == 'wrapping_add':
+                return R(a + b)
+            if op == 'saturating_sub':
+                return R(ite(z3.UGE(a, b), a - b, bv(0, a.size())))
+            return R(ite(z3.BVAddNoOverflow(a, b, False), a + b, bv((1 << a.size()) - 1, a.size())))
         if c == '<usize as Ord>::max':
             a, b = args
             return R(ite(z3.UGE(a, b) if not (z3.is_bv_value(a) and z3.is_bv_value(b)) else (TRUE if a.as_long() >= b.as_long() else FALSE), a, b))
